@@ -200,6 +200,9 @@ func c16OrdScenario(c *fw.Ctx, sp c16OrdSpec) schedScenario {
 }
 
 func c16OrdRun(c *fw.Ctx) {
+	// a monitor that joins the hub while events flow is a listener like the others: history first,
+	// then every later event once, in order, one call at a time (the scenario of C15's join clause)
+	c.Share(4, func() { exploreSched(c, c15JoinScenario(c)) })
 	specs := c16OrdSpecs()
 	for i, sp := range specs {
 		c.Share(len(specs)-i, func() { exploreSched(c, c16OrdScenario(c, sp)) })
@@ -209,6 +212,10 @@ func c16OrdRun(c *fw.Ctx) {
 func c16OrdReplay(c *fw.Ctx, raw json.RawMessage) {
 	var cas schedCase
 	_ = json.Unmarshal(raw, &cas)
+	if sc := c15JoinScenario(c); sc.ID == cas.Scenario {
+		replaySched(c, sc, raw)
+		return
+	}
 	for _, sp := range c16OrdSpecs() {
 		if sp.ID == cas.Scenario {
 			replaySched(c, c16OrdScenario(c, sp), raw)
